@@ -563,7 +563,8 @@ def synth_dropbox_valid(rng):
     def S(b):
         return b"s" + struct.pack("<i", len(b)) + b
 
-    ln = rng.choice([8, 60, 600, 6000, 30000, 60000])
+    nest = rng.choice([0, 0, 0, 1, 3, 40, 320])
+    ln = rng.choice([8, 60, 600, 6000, 30000, 60000]) if nest == 0 else rng.choice([8, 60, 120])
     mix = rng.choice(["unknown", "known", "mixed"])
     if mix == "unknown":
         code = bytes([rng.choice([5, 20, 25, 27, 30, 48, 49, 53, 57])]) * ln
@@ -572,10 +573,45 @@ def synth_dropbox_valid(rng):
     else:
         code = rng.bytes(ln)
     empty = b"(" + struct.pack("<i", 0)
-    plain = struct.pack("<iiii", 0, 0, 1, 64) + S(code) + empty * 5 + S(b"f.py") + S(b"m") + struct.pack("<i", 1) + S(b"")
-    data = struct.pack("<H", 62135) + b"\r\n" + struct.pack("<i", 0) + dropbox_encrypt_code(plain, rng.bits(31))
+
+    def plain_code(consts):
+        return (struct.pack("<iiii", 0, 0, 1, 64) + S(code) + consts + empty * 4 + S(b"f.py") + S(b"m") +
+                struct.pack("<i", 1) + S(b""))
+
+    # nested code objects: an encrypted code object holds its children still encrypted (each level one child)
+    key = rng.bits(31)
+    record = dropbox_encrypt_code(plain_code(empty), key)
+    levels = 0
+    for _ in range(nest):
+        nxt = dropbox_encrypt_code(plain_code(b"(" + struct.pack("<i", 1) + record), key)
+        if len(nxt) > 64 * 1024 - 8:
+            break
+        record = nxt
+        levels += 1
+    data = struct.pack("<H", 62135) + b"\r\n" + struct.pack("<i", 0) + record
     return data[: 64 * 1024], {"kind": "not_bytecode", "what": "dropbox_valid", "magic": 62135, "len": len(data),
-                              "code_len": ln, "opcode_mix": mix}
+                              "code_len": ln, "opcode_mix": mix, "nested_levels": levels}
+
+
+def synth_shared_tables(rng):
+    """3.11+ layout: many small code objects whose localsplus tables (names and kinds) are back-references to ONE
+    large shared object - per-code-object work that is quadratic in the table length multiplies up"""
+    magic = rng.choice([3495, 3531, 3571])
+    ln = rng.choice([2000, 20000, 40000])
+    n = rng.choice([3, 12, 25])
+    big = bytes([0xF3]) + struct.pack("<i", ln) + bytes([rng.choice([0xA0, 0xE0, 0x80, 0xC0])]) * ln  # 's' | FLAG_REF -> slot 0
+    # (bytes >= 0x80 that are not valid UTF-8, so that the shared table stays a bytes object: its items are ints
+    # with the CO_FAST_LOCAL / CELL / FREE bits set)
+
+    def code():
+        return (b"c" + struct.pack("<iiiii", 0, 0, 0, 1, 0) + b"s\x02\x00\x00\x00S\x00" + b")\x00" + b")\x00" +
+                b"r\x00\x00\x00\x00" + b"r\x00\x00\x00\x00" + b"z\x01f" + b"z\x01m" + b"z\x01m" +
+                struct.pack("<i", 1) + b"s\x00\x00\x00\x00" + b"s\x00\x00\x00\x00")
+
+    body = b"(" + struct.pack("<i", n + 1) + big + code() * n
+    data = struct.pack("<H", magic) + b"\r\n" + b"\x00" * 12 + body
+    return data[: 64 * 1024], {"kind": "not_bytecode", "what": "shared_localsplus_tables", "magic": magic,
+                              "len": len(data), "table_len": ln, "code_objects": n}
 
 
 # ---------------------------------------------------------------- not bytecode at all
@@ -585,6 +621,8 @@ def synth_not_bytecode(rng, magics):
                        "magic+pattern", "source", "magic+marshalish", "dropbox_like"])
     if kind == "dropbox_like" and rng.chance(1, 3):
         return synth_dropbox_valid(rng)
+    if kind == "magic+marshalish" and rng.chance(1, 4):
+        return synth_shared_tables(rng)
     if kind == "dropbox_like":
         # the encrypted-code layout of the dropbox loader: 'c', two key words (the second is also the byte count),
         # then the (here: random) cipher text; sizes 0, 1, odd, huge and negative
